@@ -45,8 +45,16 @@ KindErrors == {"no_choices"}
 
 CurPath == IF Len(stack) = 0 THEN <<>> ELSE stack[Len(stack)].path
 
-Node(p, kind, gen, row, type, hc, lh, lname) ==
-  [p |-> p, kind |-> kind, gen |-> gen, row |-> row, type |-> type, hc |-> hc, lh |-> lh, lname |-> lname]
+Node(p, kind, gen, row, type, hc, lh, lname, attrs) ==
+  [p |-> p, kind |-> kind, gen |-> gen, row |-> row, type |-> type, hc |-> hc, lh |-> lh, lname |-> lname,
+   attrs |-> attrs]
+
+\* Body-control attributes: a sequence of <<name, value, literal?>> triples.  `cattrs` of a row is what its
+\* appearance / body:: / parameters cells dictate (alpha); the type table adds the media type.
+WithMedia(t, a) == IF TypeKnown(t) /\ TypeTable[t].media # "" THEN <<<<"mediatype", TypeTable[t].media, TRUE>>>> \o a ELSE a
+SetAttr(a, n, v) == SelectSeq(a, LAMBDA x : x[1] # n) \o <<<<n, v, TRUE>>>>
+SetRef(a, n) == SelectSeq(a, LAMBDA x : x[1] # n) \o <<<<n, "", FALSE>>>>
+AppearanceOf(a) == LET s == SelectSeq(a, LAMBDA x : x[1] = "appearance") IN IF s = <<>> THEN "" ELSE s[1][2]
 
 RPInit(c) ==
   /\ cfgv = c
@@ -100,11 +108,13 @@ RowBegin(r) ==                                  \* l.824-950
          tlab   == r.tl /\ (r.lh)               \* l.924: generated label note
      IN /\ nodes' = nodes
                \o (IF cnt THEN <<Node(Append(parent, nm \o "_count"), "q", "count", rowno, "calculate",
-                                      FALSE, FALSE, r.lname \o "_count")>> ELSE <<>>)
-               \o <<Node(p, r.ct, "", rowno, r.ct, TRUE, r.lh, r.lname)>>
+                                      FALSE, FALSE, r.lname \o "_count", <<>>)>> ELSE <<>>)
+               \o <<Node(p, r.ct, "", rowno, r.ct, TRUE, r.lh, r.lname,
+                         LET a1 == IF r.tl THEN SetAttr(r.cattrs, "appearance", r.tlapp) ELSE r.cattrs
+                         IN IF cnt THEN SetRef(a1, "jr:count") ELSE a1)>>      \* l.901: redirected to the helper node
                \o (IF tlab THEN <<Node(Append(p, "generated_table_list_label_" \o ToString(rowno)), "q",
                                        "tl_label", rowno, "note", TRUE, TRUE,
-                                       "generated_table_list_label_" \o ToString(rowno))>> ELSE <<>>)
+                                       "generated_table_list_label_" \o ToString(rowno), <<>>)>> ELSE <<>>)
         /\ stack' = Append(stack, [ct |-> r.ct, name |-> nm, path |-> p])
         /\ tableList' = IF r.tl THEN "armed" ELSE tableList      \* l.914: only ever switched on here
         /\ Adv(r) /\ UNCHANGED <<cfgv, meta, outcome>>
@@ -123,11 +133,13 @@ RowSelect(r) ==                                 \* l.956-1188
          hdr    == tableList = "armed"                                                          \* l.1153
          hname  == "reserved_name_for_field_list_labels_" \o ToString(rowno)
      IN /\ nodes' = nodes
-               \o (IF hdr THEN <<Node(Append(parent, hname), "q", "tl_header", rowno, r.type, TRUE, TRUE, hname)>>
+               \o (IF hdr THEN <<Node(Append(parent, hname), "q", "tl_header", rowno, r.type, TRUE, TRUE, hname,
+                                      <<<<"appearance", "label", TRUE>>>>)>>
                    ELSE <<>>)
-               \o <<Node(Append(parent, r.name), "q", "", rowno, r.type, HasControl(r), r.lh \/ r.media, r.lname)>>
+               \o <<Node(Append(parent, r.name), "q", "", rowno, r.type, HasControl(r), r.lh \/ r.media, r.lname,
+                         IF tableList # "none" THEN SetAttr(r.cattrs, "appearance", "list-nolabel") ELSE r.cattrs)>>   \* l.1180
                \o (IF r.other THEN <<Node(Append(parent, r.name \o "_other"), "q", "other", rowno, "text",
-                                          TRUE, TRUE, r.lname \o "_other")>> ELSE <<>>)
+                                          TRUE, TRUE, r.lname \o "_other", <<>>)>> ELSE <<>>)
         /\ tableList' = IF hdr THEN r.list ELSE tableList
         /\ Adv(r) /\ UNCHANGED <<cfgv, stack, meta, outcome>>
 
@@ -136,7 +148,8 @@ RowQuestion(r) ==                               \* l.752-760, 798-817, 1190-1374
   /\ IF r.type = "calculate" /\ ~r.hascalc /\ r.dyn \in {"none", "static"} THEN Fail("calc_missing")
      ELSE IF NameErr(r) # "" THEN Fail(NameErr(r))
      ELSE /\ nodes' = Append(nodes, Node(Append(CurPath, EffName(r)), "q", IF r.hasname THEN "" ELSE "note",
-                                         rowno, r.type, HasControl(r), r.lh \/ r.media, EffLname(r)))
+                                         rowno, r.type, HasControl(r), r.lh \/ r.media, EffLname(r),
+                                         WithMedia(r.type, r.cattrs)))
           /\ Adv(r) /\ UNCHANGED <<cfgv, stack, tableList, meta, outcome>>
 
 RowStep(r) == \/ RowSkip(r) \/ RowNoType(r) \/ RowAudit(r) \/ RowEnd(r)
@@ -151,9 +164,9 @@ MetaNames == meta \o (IF cfgv.omitid THEN <<>> ELSE <<"instanceID">>)
                   \o (IF cfgv.entity THEN <<"entity">> ELSE <<>>)
 
 MetaNodes == IF Len(MetaNames) = 0 THEN <<>>
-             ELSE <<Node(<<"meta">>, "group", "meta", 0, "group", FALSE, FALSE, "meta")>>
+             ELSE <<Node(<<"meta">>, "group", "meta", 0, "group", FALSE, FALSE, "meta", <<>>)>>
                   \o [i \in 1..Len(MetaNames) |->
-                        Node(<<"meta", MetaNames[i]>>, "q", "meta", 0, "calculate", FALSE, FALSE, MetaNames[i])]
+                        Node(<<"meta", MetaNames[i]>>, "q", "meta", 0, "calculate", FALSE, FALSE, MetaNames[i], <<>>)]
 
 DupSibling(ns) == \E i, j \in 1..Len(ns) : i < j /\ Parent(ns[i].p) = Parent(ns[j].p) /\ ns[i].lname = ns[j].lname
 DupSection(ns) == \E i, j \in 1..Len(ns) : i < j /\ IsSection(ns[i]) /\ IsSection(ns[j])
@@ -187,9 +200,10 @@ SubtreeOf(p) == SelectSeq(ExpInstance, LAMBDA q : IsPrefix(p, q))
 GenKinds == {"count", "other", "tl_label", "tl_header", "note", "meta"}
 UserNodes == SelectSeq(nodes, LAMBDA n : n.gen \in {"", "note"})
 \* Expected body: every node with a control, in preorder; a repeat is group + repeat.
-BodyStep(n) == IF n.kind = "repeat" THEN <<[tag |-> "group", ref |-> n.p], [tag |-> "repeat", ref |-> n.p]>>
-               ELSE IF n.kind = "group" THEN <<[tag |-> "group", ref |-> n.p]>>
-               ELSE <<[tag |-> TagOf(n.type), ref |-> n.p]>>
+BodyStep(n) == IF n.kind = "repeat" THEN <<[tag |-> "group", ref |-> n.p, attrs |-> <<>>],
+                                            [tag |-> "repeat", ref |-> n.p, attrs |-> n.attrs]>>
+               ELSE IF n.kind = "group" THEN <<[tag |-> "group", ref |-> n.p, attrs |-> n.attrs]>>
+               ELSE <<[tag |-> TagOf(n.type), ref |-> n.p, attrs |-> n.attrs]>>
 RECURSIVE BodyOf(_)
 BodyOf(ns) == IF ns = <<>> THEN <<>>
               ELSE (IF Head(ns).hc THEN BodyStep(Head(ns)) ELSE <<>>) \o BodyOf(Tail(ns))
